@@ -91,6 +91,15 @@ mod simd_impl {
         ])
     }
 
+    /// Division by `2^k` truncating toward zero, like the scalar `/` and as Annex J prescribes.
+    /// A plain arithmetic right shift would round negative values toward negative infinity.
+    #[inline]
+    fn div_pow2_trunc(x: i16x8, k: i32) -> i16x8 {
+        let bias: i16x8 = x.shr(15) & i16x8::splat((1 << k) - 1);
+        let biased: i16x8 = x + bias;
+        biased.shr(k)
+    }
+
     /// Same as `scalar::process`, but performs it on 8 independent sets of values in parallel.
     /// All slice parameters must have a length of 8 - this not enforced by the type system due
     /// to usage in chunked iteration below, see: https://github.com/rust-lang/rust/issues/74985
@@ -104,9 +113,9 @@ mod simd_impl {
         let c16 = into_simd16(C);
         let d16 = into_simd16(D);
 
-        let d: i16x8 = (a16 - 4 * b16 + 4 * c16 - d16).shr(3);
+        let d: i16x8 = div_pow2_trunc(a16 - 4 * b16 + 4 * c16 - d16, 3);
         let d1: i16x8 = up_down_ramp_simd(d, strength as i16);
-        let d2: i16x8 = clipd1_simd((a16 - d16).shr(2), d1.shr(1));
+        let d2: i16x8 = clipd1_simd(div_pow2_trunc(a16 - d16, 2), div_pow2_trunc(d1, 1));
 
         let res_a = a16 - d2;
         let res_b = clamp_simd(b16 + d1, i16x8::ZERO, i16x8::splat(255));
